@@ -1,11 +1,16 @@
 import IblVerif.Model.Proto
 import IblVerif.Model.Features
+import IblVerif.Model.FeaturesCall
 open IblVerif IblVerif.Proto IblVerif.Features
 
 /-
 Line protocol (one request per line):
   batch <k> <T> <fsNum> <data>      data = waveforms separated by `|`, channels by `;`, samples by `,`
                                     a sample is an integer, `num/den`, or `n` (NaN)
+  call <rd> <fs> <T> <data>          the whole call: rd = recovery_duration_ms as an exact rational `num/den`, fs an integer; the
+                                    model computes the recovery offset itself (`Features.recoveryOffset`) and interprets the
+                                    stage list of compute_spike_features (`Features.call`); answer as for `batch`
+  offset <rd> <fs>                  `k <int>`: the recovery offset alone
 Answer: `ok f|f|…` (14 index/value columns then the derived columns as exact rationals) or `err <kind>`.
 Parsing and printing only; the features come from `Features.batchRaw` (= `Features.batch` after NaN → 0), the derived
 columns from `Feat.ratio`, `Feat.peakToTroughDuration`, `Feat.halfPeakDuration`, `Feat.*Slope`.
@@ -45,8 +50,39 @@ def showFeat (fs : Rat) (f : Feat) : String :=
     showX f.ratio, showRat (f.peakToTroughDuration fs), showRat (f.halfPeakDuration fs),
     showX (f.depolSlope fs), showX (f.repolSlope fs), showX (f.recoverySlope fs)]
 
+def fracOfString? (s : String) : Option (Int × Nat) :=
+  match s.splitOn "/" with
+  | [a] => a.toInt?.map fun (i : Int) => (i, 1)
+  | [a, b] => do
+    let n ← a.toInt?
+    let d ← b.toNat?
+    if d = 0 then none else some (n, d)
+  | _ => none
+
+def showFull (r : FullRow) : String :=
+  let f := r.feat
+  ",".intercalate [toString f.peakTrace, toString f.peakTime, showRat f.peakVal, showRat f.invertSign,
+    toString f.troughTime, showRat f.troughVal, toString f.tipTime, showRat f.tipVal,
+    toString f.halfPost, toString f.halfPre, showRat f.halfPostVal, showRat f.halfPreVal,
+    toString f.recTime, showRat f.recVal,
+    showX r.ratio, showRat r.ptDur, showRat r.hpDur, showX r.depol, showX r.repol, showX r.recSl]
+
+def showCallErr : CallErr → String
+  | .order => "err order" | .negOffset => "err negOffset" | .feat e => showErr e
+
 def step (t : List String) : String :=
   match t with
+  | ["call", rd, fs, tt, d] =>
+    match fracOfString? rd, fs.toInt?, nat? tt, data? d with
+    | some (rn, rdn), some fs, some tt, some raw =>
+      match call rn rdn fs tt raw with
+      | .ok rows => "ok " ++ "|".intercalate (rows.map showFull)
+      | .error e => showCallErr e
+    | _, _, _, _ => "bad-op"
+  | ["offset", rd, fs] =>
+    match fracOfString? rd, fs.toInt? with
+    | some (rn, rdn), some fs => s!"k {recoveryOffset rn rdn fs}"
+    | _, _ => "bad-op"
   | ["batch", k, tt, fs, d] =>
     match nat? k, nat? tt, ratOfString? fs, data? d with
     | some k, some tt, some fs, some raw =>
